@@ -139,6 +139,116 @@ Proof.
   intros x [<-|Hx]; [apply Hnz; left; reflexivity|apply Hnz; right; eapply cp_sub; exact Hx].
 Qed.
 
+(* the number index names the head at the head's own height *)
+Definition CanonHead (s : st) : Prop := canon (dsk s) (s_num (cur_block s)) = s_hash (cur_block s).
+
+Lemma cn_put_other : forall d k v n, (forall m, k <> KCanon m) -> canon (put k v d) n = canon d n.
+Proof. intros d k v n H. unfold canon. rewrite get_put. destruct (key_eq_dec (KCanon n) k) as [E|]; [exfalso; apply (H n); symmetry; exact E|reflexivity]. Qed.
+Lemma cn_del_other : forall d k n, (forall m, k <> KCanon m) -> canon (del k d) n = canon d n.
+Proof. intros d k n H. unfold canon. rewrite get_del. destruct (key_eq_dec (KCanon n) k) as [E|]; [exfalso; apply (H n); symmetry; exact E|reflexivity]. Qed.
+Lemma cn_batch_other : forall l d n, (forall kv, In kv l -> forall m, fst kv <> KCanon m) -> canon (fold_left apply_bop l d) n = canon d n.
+Proof.
+  induction l as [|[k ov] l IH]; intros d n H; cbn [fold_left]; [reflexivity|].
+  rewrite IH by (intros; apply H; right; assumption).
+  unfold apply_bop; cbn [fst snd]. pose proof (H (k, ov) (or_introl eq_refl)) as Hk. cbn [fst] in Hk.
+  destruct ov; [apply cn_put_other|apply cn_del_other]; exact Hk.
+Qed.
+Lemma bc_insert_cn : forall b s, canon (dsk (bc_insert b s)) (s_num b) = s_hash b.
+Proof.
+  intros b s. unfold bc_insert.
+  destruct (negb (canon (dsk s) (s_num b) =? s_hash b)); cbn [dsk emit set_cur_block set_cur_header set_cur_fast apply_wop];
+    rewrite ?cn_put_other by (intro; discriminate); unfold canon; rewrite get_put;
+    (destruct (key_eq_dec (KCanon (s_num b)) (KCanon (s_num b))); [reflexivity|congruence]).
+Qed.
+Lemma ch_mem : forall s s', dsk s' = dsk s -> cur_block s' = cur_block s -> CanonHead s -> CanonHead s'.
+Proof. intros s s' Ed Ec H. unfold CanonHead in *. rewrite Ed, Ec. exact H. Qed.
+Lemma ch_same : forall s s', (forall n, canon (dsk s') n = canon (dsk s) n) -> cur_block s' = cur_block s -> CanonHead s -> CanonHead s'.
+Proof. intros s s' Ed Ec H. unfold CanonHead in *. rewrite Ed, Ec. exact H. Qed.
+
+Lemma wbws_ch : forall b s, CanonHead s -> CanonHead (snd (write_block_with_state b s)).
+Proof.
+  intros b s P. unfold write_block_with_state.
+  set (hd := b_hdr b). set (txs := b_txs b). set (h := h_hash hd).
+  destruct (td_of (dsk s) (h_parent hd)) as [ptd|]; [|exact P].
+  cbv zeta. set (ext := h_diff hd + ptd).
+  set (s1 := emit (Put (KState (h_root hd)) VUnit) (emit (Put (KTd h) (VNum ext)) s)).
+  assert (P1 : CanonHead s1).
+  { apply (ch_same s); [|reflexivity|exact P]. intro n0. unfold s1. cbn [dsk emit apply_wop]. rewrite !cn_put_other by (intro; discriminate). reflexivity. }
+  destruct (td_of (dsk s) (s_hash (cur_block s))) as [ltd|]; [|exact P1].
+  assert (Hside : forall s1', dsk s1' = dsk s1 -> cur_block s1' = cur_block s1 ->
+            CanonHead (emit (Batch ([(KBody h, Some (VTxs txs)); (KHashNum h, Some (VNum (h_number hd))); (KHeader h, Some (VHeader hd))]
+                               ++ [(KReceipts h, Some (VTxs txs))])) s1')).
+  { intros s1' Ed Ec. apply (ch_same s1); [|exact Ec|exact P1]. intro n0. cbn [dsk emit apply_wop]. rewrite cn_batch_other.
+    - rewrite Ed. reflexivity.
+    - intros kv Hkv. cbn [app In] in Hkv. repeat (destruct Hkv as [<-|Hkv]; [intro; discriminate|]). contradiction. }
+  assert (Hmain : forall s1', dsk s1' = dsk s1 -> cur_block s1' = cur_block s1 ->
+            CanonHead (snd (let r := if h_parent hd =? s_hash (cur_block s) then (SOk, s1')
+                               else reorg (reorg_fuel s1' (h_number hd)) (cur_block s) (to_s b) s1' in
+                      match r with
+                      | (SOk, s0) =>
+                        (SOk, bc_insert (to_s b)
+                           (emit (Batch (([(KBody h, Some (VTxs txs)); (KHashNum h, Some (VNum (h_number hd))); (KHeader h, Some (VHeader hd))]
+                               ++ [(KReceipts h, Some (VTxs txs))])
+                               ++ map (fun kv : key * value => (fst kv, Some (snd kv))) (lookup_puts h (h_number hd) 0 txs))) s0))
+                      | other => other
+                      end))).
+  { intros s1' Ed Ec. cbv zeta.
+    assert (P1' : CanonHead s1') by (eapply ch_mem; eassumption).
+    set (r := if h_parent hd =? s_hash (cur_block s) then (SOk, s1')
+              else reorg (reorg_fuel s1' (h_number hd)) (cur_block s) (to_s b) s1').
+    assert (Hr : fst r <> SOk -> snd r = s1').
+    { unfold r. destruct (h_parent hd =? s_hash (cur_block s)); [reflexivity|apply reorg_fail_unchanged]. }
+    destruct r as [e s3]. cbn [fst snd] in Hr.
+    destruct e; cbn [snd]; try (rewrite Hr by discriminate; exact P1').
+    unfold CanonHead. rewrite bc_insert_cur. apply bc_insert_cn. }
+  destruct (ltd <? ext).
+  { apply (Hmain s1); reflexivity. }
+  destruct (ext =? ltd).
+  2:{ cbn [snd]. apply (Hside s1); reflexivity. }
+  destruct (h_number hd <? s_num (cur_block s)).
+  { apply (Hmain s1); reflexivity. }
+  destruct (h_number hd =? s_num (cur_block s)).
+  2:{ cbn [snd]. apply (Hside s1); reflexivity. }
+  destruct (coins s1) as [|c rest] eqn:Ec; [exact P1|].
+  destruct c.
+  - apply (Hmain (set_coins rest s1)); reflexivity.
+  - cbn [snd]. apply (Hside (set_coins rest s1)); reflexivity.
+Qed.
+
+Lemma wbwos_ch : forall b td s, CanonHead s -> CanonHead (write_block_without_state b td s).
+Proof.
+  intros b td s P. apply (ch_same s); [|reflexivity|exact P]. intro n0. unfold write_block_without_state. cbn [dsk emit apply_wop].
+  rewrite !cn_put_other by (intro; discriminate). reflexivity.
+Qed.
+
+Lemma ic_loop_ch : forall chain prev idx s, CanonHead s -> CanonHead (snd (ic_loop prev idx chain s)).
+Proof.
+  induction chain as [|b rest IH]; intros prev idx s P; [exact P|].
+  assert (IH' : forall prev idx s, CanonHead s -> CanonHead (snd (ic_loop prev idx rest s))) by (intros; apply IH; assumption).
+  rewrite ic_loop_cons.
+  assert (Hproc : CanonHead (snd (ic_process prev idx b s (ic_loop (Some b) (idx + 1) rest)))).
+  { unfold ic_process.
+    destruct (match prev with Some p => Some (h_root (b_hdr p)) | None => option_map s_root (block_of (dsk s) (h_parent (b_hdr b))) end); [|exact P].
+    destruct (negb (has_state (dsk s) n)); [exact P|].
+    destruct (negb (b_valid b)); [exact P|].
+    pose proof (wbws_ch b s P) as Hw.
+    destruct (write_block_with_state b s) as [e s']. cbn [snd] in Hw.
+    destruct e; try exact Hw. apply IH'. exact Hw. }
+  destruct (validate_body (dsk s) (b_hdr b)).
+  - destruct (h_number (b_hdr b) <=? s_num (cur_block s)); [apply IH'; exact P|exact Hproc].
+  - exact P.
+  - destruct (td_of (dsk s) (s_hash (cur_block s))); [|exact P].
+    destruct (td_of (dsk s) (h_parent (b_hdr b))); [|exact P].
+    cbv zeta. destruct (_ <? _); [|exact P]. apply IH', wbwos_ch, P.
+  - exact Hproc.
+Qed.
+
+Lemma insert_chain_ch : forall chain cs s, CanonHead s -> CanonHead (snd (insert_chain chain cs s)).
+Proof.
+  intros chain cs s P. unfold insert_chain. destruct chain as [|b r]; [exact P|].
+  apply ic_loop_ch. exact P.
+Qed.
+
 Section Reopen.
 Variable U : N -> sblock.
 Variable g : header.
@@ -151,11 +261,14 @@ Notation TOK := (TraceOK block_data_complete d0).
 Lemma reopen_good : forall s, Inv U g s -> PtrOK s -> TOK s ->
   Inv U g (snd (reopen s)) /\ PtrOK (snd (reopen s)) /\ TOK (snd (reopen s)) /\
   head_td (snd (reopen s)) = head_td s /\
-  (forall k, header_of (dsk (snd (reopen s))) k = header_of (dsk s) k).
+  (forall k, header_of (dsk (snd (reopen s))) k = header_of (dsk s) k) /\
+  cur_block (snd (reopen s)) = cur_block s /\
+  (forall n, canon (dsk (snd (reopen s))) n = canon (dsk s) n).
 Proof.
   intros s I [Ph Pnz] T.
-  assert (Triv : Inv U g s /\ PtrOK s /\ TOK s /\ head_td s = head_td s /\ (forall k, header_of (dsk s) k = header_of (dsk s) k))
-    by (split; [exact I|split; [split; assumption|split; [exact T|split; [reflexivity|intro; reflexivity]]]]).
+  assert (Triv : Inv U g s /\ PtrOK s /\ TOK s /\ head_td s = head_td s /\ (forall k, header_of (dsk s) k = header_of (dsk s) k)
+                 /\ cur_block s = cur_block s /\ (forall n, canon (dsk s) n = canon (dsk s) n))
+    by (split; [exact I|split; [split; assumption|split; [exact T|split; [reflexivity|split; [intro; reflexivity|split; [reflexivity|intro; reflexivity]]]]]]).
   unfold reopen.
   destruct (header_of (dsk s) (canon (dsk s) 0)) as [gh|]; [|exact Triv].
   destruct (block_of (dsk s) (canon (dsk s) 0)) as [g'|]; [|exact Triv].
@@ -185,7 +298,7 @@ Proof.
   destruct Ed' as [v Ed'].
   assert (Hsc : same_core (dsk s) (dsk s')) by (rewrite Ed'; apply same_core_put; reflexivity).
   assert (Ehd' : head_td s' = head_td s) by (unfold head_td, td_or0; rewrite Ec', (sc_td _ _ _ Hsc); reflexivity).
-  split; [|split; [|split; [|split; [exact Ehd'|intro k; apply (sc_header _ _ _ Hsc)]]]].
+  split; [|split; [|split; [|split; [exact Ehd'|split; [intro k; apply (sc_header _ _ _ Hsc)|split; [exact Ec'|intro n; rewrite Ed'; apply cn_put_other; intro; discriminate]]]]]].
   - constructor.
     + apply (invD_same_core U g _ _ Hsc (inv_d _ _ _ I)).
     + rewrite Ec', (sc_block _ _ _ Hsc). exact Hcur.
@@ -228,11 +341,34 @@ Proof.
       * split; [exact I1|split; [exact P1|exact T1]].
       * split; [exact J2|split; [lia|auto]].
     + cbn [step].
-      destruct (reopen_good s I P T) as (I1 & P1 & T1 & E1 & H1).
+      destruct (reopen_good s I P T) as (I1 & P1 & T1 & E1 & H1 & _ & _).
       destruct (IH (snd (reopen s)) Hio') as (J2 & L2 & M2).
       * intros b Hb. apply W. unfold blocks_of. cbn [flat_map blocks_of_op app]. exact Hb.
       * split; [exact I1|split; [exact P1|exact T1]].
       * split; [exact J2|split; [lia|]]. intros k Hk. apply M2. rewrite H1. exact Hk.
+Qed.
+
+Lemma run_canon_head : forall ops s,
+  imports_and_reopens ops -> (forall b, In b (blocks_of ops) -> wf_block U b /\ h_hash (b_hdr b) <> 0) ->
+  J s -> CanonHead s -> CanonHead (run ops s).
+Proof.
+  induction ops as [|o ops IH]; intros s Hio W Js C; [exact C|].
+  assert (Hio' : imports_and_reopens ops) by (intros o' Ho'; apply Hio; right; exact Ho').
+  assert (Wo : forall b, In b (blocks_of [o]) -> wf_block U b /\ h_hash (b_hdr b) <> 0).
+  { intros b Hb. apply W. unfold blocks_of in *. cbn [flat_map] in *. apply in_or_app. left. rewrite app_nil_r in Hb. exact Hb. }
+  assert (W' : forall b, In b (blocks_of ops) -> wf_block U b /\ h_hash (b_hdr b) <> 0).
+  { intros b Hb. apply W. unfold blocks_of in *. cbn [flat_map]. apply in_or_app. right. exact Hb. }
+  destruct (run_J [o] s) as (J1 & _ & _); [intros o' [<-|[]]; apply Hio; left; reflexivity|exact Wo|exact Js|].
+  change (run (o :: ops) s) with (run ops (run [o] s)).
+  apply IH; auto.
+  unfold run. cbn [fold_left].
+  destruct (Hio o (or_introl eq_refl)) as [(c & cs & ->)| ->].
+  - assert (Estep : snd (step (OpInsert c cs) s) = snd (insert_chain c cs s))
+      by (cbn [step]; destruct (insert_chain c cs s) as [[e i] s']; reflexivity).
+    rewrite Estep. apply insert_chain_ch. exact C.
+  - cbn [step]. destruct Js as (I & P & T).
+    destruct (reopen_good s I P T) as (_ & _ & _ & _ & _ & Ec & En).
+    unfold CanonHead. rewrite Ec, En. exact C.
 Qed.
 
 Hypothesis gnz : h_hash g <> 0.
@@ -283,5 +419,20 @@ Theorem every_prefix_with_reopen : forall ops,
   (forall b, In b (blocks_of ops) -> wf_block U b /\ h_hash (b_hdr b) <> 0) ->
   forall k, block_data_complete (crash_disk d0 (log_of (run ops (pre_open g))) k).
 Proof. intros ops Hio W. apply (c02_with_reopen [] ops Hio W). Qed.
+
+(* the number index and the LastBlock pointer both name the head, after any history of
+   imports and restarts: the top clause of canon_below *)
+Theorem head_named : forall ops,
+  imports_and_reopens ops ->
+  (forall b, In b (blocks_of ops) -> wf_block U b /\ h_hash (b_hdr b) <> 0) ->
+  let s := run ops (pre_open g) in
+  canon (dsk s) (s_num (cur_block s)) = s_hash (cur_block s) /\ hb (dsk s) = s_hash (cur_block s).
+Proof.
+  intros ops Hio W s.
+  assert (C0 : CanonHead (pre_open g)).
+  { unfold CanonHead. cbn [dsk pre_open cur_block]. unfold s_num, s_hash; cbn [fst]. rewrite g0. reflexivity. }
+  split; [apply (run_canon_head ops (pre_open g) Hio W J_pre_open C0)|].
+  destruct (run_J ops (pre_open g) Hio W J_pre_open) as ((_ & P & _) & _ & _). apply P.
+Qed.
 
 End Reopen.
